@@ -517,6 +517,25 @@ def judgeNetwork : P Verdict := do
       | none => return .ok s!"{name}:no"
     else return .skip s!"{name}:no-large"
 
+/-- Is `M` the fundamental-cycle matrix of `g` for some spanning forest, up to the order of rows and of columns?  (The contract of the
+representation-matrix functions when no forest, or a list that is no spanning forest, is offered: "a network matrix of D is computed
+regardless".)  Brute force over all edge subsets of the right size; used for small graphs only. -/
+def isSomeCycleMatrix (g : Graph) (r c : Nat) (M : Mat) (signed : Bool) : Bool :=
+  let ids := g.edges.map (·.id)
+  let sortCols (X : Mat) (rr cc : Nat) : List (List Int) :=
+    ((List.range cc).map (fun j => (List.range rr).map (fun i => ent X i j))).mergeSort (fun a b => decide (a ≤ b))
+  (choose r ids).any fun F =>
+    let T := F.filterMap g.edge?
+    let coIds := ids.filter (fun e => !F.contains e)
+    let coT := coIds.filterMap g.edge?
+    coT.length == c && isSpanningForest g T &&
+    match cycleMatrix T coT signed with
+    | none => false
+    | some C =>
+      -- some row order of C has the same multiset of columns as M
+      let target := sortCols M r c
+      (perms (List.range r)).any fun p => sortCols (sub C p (List.range c)) r c == target
+
 open P in
 def judgeRepmat : P Verdict := do
   let directed ← nat; let outs ← nat
@@ -547,12 +566,25 @@ def judgeRepmat : P Verdict := do
   | some (r, c, M), some (r', c', Mt) =>
     if !(r == c' && c == r' && transpose r c M == Mt) then return .fail s!"{name}:transpose" "matrix and transpose outputs differ"
   | _, _ => pure ()
-  if nF < 0 then return .ok s!"{name}:noforest"
+  -- without a (correct) forest the library chooses one: the result must be the cycle matrix of *some* spanning forest
+  let someForest (tag : String) : Verdict :=
+    let X : Option (Nat × Nat × Mat) := match dm, dt with
+      | some x, _ => some x
+      | none, some (r, c, Mt) => some (c, r, transpose r c Mt)
+      | none, none => none
+    match X with
+    | none => .ok tag
+    | some (r, c, M) =>
+      if ne > 9 || r > 5 then .skip s!"{tag}:large"
+      else if r + c != ne then .fail name s!"{r} rows and {c} columns for {ne} edges"
+      else if isSomeCycleMatrix g r c M (directed == 1) then .ok tag
+      else .fail s!"{name}:some-forest" s!"the matrix {matToString M} is not the fundamental-cycle matrix of the graph for any spanning forest"
+  if nF < 0 then return someForest s!"{name}:noforest"
   let T := F.filterMap g.edge?
   let isSF := decide F.Nodup && isSpanningForest g T
   if (corr == "correct=1") != isSF then
     return .fail s!"{name}:flag" s!"forest correctness reported {corr}, model says {isSF}"
-  if !isSF then return .ok s!"{name}:incorrect-forest"
+  if !isSF then return someForest s!"{name}:incorrect-forest"
   -- coforest: given order if complete, else the contract fixes only the set of columns
   let compl := (List.range ne).filter (fun e => !F.contains e)
   if nK < 0 || !(decide K.Nodup && K.length == compl.length && K.all compl.contains) then return .ok s!"{name}:nocoforest"
